@@ -47,7 +47,9 @@ impl<E> Iterator for It<E> {
 impl<E> ExactSizeIterator for It<E> {}
 
 fn make_items<E: Pay>(n: usize, tag0: u64) -> (Vec<E>, Vec<u32>) {
-    let v: Vec<E> = (0..n).map(|k| E::make((tag0 + k as u64) % 200 + 1)).collect();
+    let v: Vec<E> = (0..n)
+        .map(|k| E::make((tag0 + k as u64) % 200 + 1))
+        .collect();
     let ids = shadow::untracked(|| v.iter().map(|e| e.id()).collect());
     (v, ids)
 }
@@ -69,7 +71,15 @@ fn with_capacity<E>(mut v: Vec<E>, capmode: usize) -> Vec<E> {
 }
 
 fn check_slice<E: Pay>(what: &str, got: &[E], ids: &[u32]) -> R {
-    ensure!(got.len() == ids.len(), "C06", "ctor", "{}: result has {} elements, input had {}", what, got.len(), ids.len());
+    ensure!(
+        got.len() == ids.len(),
+        "C06",
+        "ctor",
+        "{}: result has {} elements, input had {}",
+        what,
+        got.len(),
+        ids.len()
+    );
     for (k, e) in got.iter().enumerate() {
         if let Err(m) = e.check() {
             return viol("C06", "ctor", format!("{}: element {}: {}", what, k, m));
@@ -84,9 +94,23 @@ fn check_slice<E: Pay>(what: &str, got: &[E], ids: &[u32]) -> R {
 pub const NCTORS: usize = 12;
 
 /// One construction. `H` header payload, `E` element payload.
-pub fn case<H: Pay, E: Pay>(ctor: usize, n: usize, regime: u8, capmode: usize, st: &mut CtStats) -> R {
+pub fn case<H: Pay, E: Pay>(
+    ctor: usize,
+    n: usize,
+    regime: u8,
+    capmode: usize,
+    st: &mut CtStats,
+) -> R {
     let zst = std::mem::size_of::<E>() == 0;
-    let what = format!("ctor=K{} H={} E={} len={} hint-regime={} cap-mode={}", ctor, H::NAME, E::NAME, n, regime, capmode);
+    let what = format!(
+        "ctor=K{} H={} E={} len={} hint-regime={} cap-mode={}",
+        ctor,
+        H::NAME,
+        E::NAME,
+        n,
+        regime,
+        capmode
+    );
     let id0 = tk::next_id();
     shadow::reset();
     let _ = tk::take_findings();
@@ -94,7 +118,11 @@ pub fn case<H: Pay, E: Pay>(ctor: usize, n: usize, regime: u8, capmode: usize, s
     let live0 = tk::live();
     let (items, ids) = shadow::tracked(|| make_items::<E>(n, (ctor * 7 + n) as u64));
     let items = shadow::tracked(|| with_capacity(items, capmode));
-    let src_buf = if items.capacity() > 0 && !zst { items.as_ptr() as usize } else { 0 };
+    let src_buf = if items.capacity() > 0 && !zst {
+        items.as_ptr() as usize
+    } else {
+        0
+    };
     let header = shadow::tracked(|| H::make(150));
     let hid = header.id();
     let n_in = n as i64 + if H::HAS_ID { 1 } else { 0 };
@@ -114,14 +142,71 @@ pub fn case<H: Pay, E: Pay>(ctor: usize, n: usize, regime: u8, capmode: usize, s
     let r = shadow::tracked(|| {
         catch(|| -> (Out<H, E>, &'static str, bool, bool) {
             match ctor {
-                0 => (Out::Slice(Arc::from(items)), "From<Vec<T>> for Arc<[T]>", false, true),
-                1 => (Out::Slice(It { items: items.into_iter(), regime }.collect()), "FromIterator for Arc<[T]>", false, false),
-                2 => (Out::Uslice(It { items: items.into_iter(), regime }.collect()), "FromIterator for UniqueArc<[T]>", false, false),
-                3 => (Out::Hs(Arc::from_header_and_iter(header, It { items: items.into_iter(), regime: 0 })), "Arc::from_header_and_iter", true, false),
-                4 => (Out::Hs(Arc::from_header_and_vec(header, items)), "Arc::from_header_and_vec", true, true),
-                5 => (Out::Thin(ThinArc::from_header_and_iter(header, It { items: items.into_iter(), regime: 0 })), "ThinArc::from_header_and_iter", true, false),
+                0 => (
+                    Out::Slice(Arc::from(items)),
+                    "From<Vec<T>> for Arc<[T]>",
+                    false,
+                    true,
+                ),
+                1 => (
+                    Out::Slice(
+                        It {
+                            items: items.into_iter(),
+                            regime,
+                        }
+                        .collect(),
+                    ),
+                    "FromIterator for Arc<[T]>",
+                    false,
+                    false,
+                ),
+                2 => (
+                    Out::Uslice(
+                        It {
+                            items: items.into_iter(),
+                            regime,
+                        }
+                        .collect(),
+                    ),
+                    "FromIterator for UniqueArc<[T]>",
+                    false,
+                    false,
+                ),
+                3 => (
+                    Out::Hs(Arc::from_header_and_iter(
+                        header,
+                        It {
+                            items: items.into_iter(),
+                            regime: 0,
+                        },
+                    )),
+                    "Arc::from_header_and_iter",
+                    true,
+                    false,
+                ),
+                4 => (
+                    Out::Hs(Arc::from_header_and_vec(header, items)),
+                    "Arc::from_header_and_vec",
+                    true,
+                    true,
+                ),
+                5 => (
+                    Out::Thin(ThinArc::from_header_and_iter(
+                        header,
+                        It {
+                            items: items.into_iter(),
+                            regime: 0,
+                        },
+                    )),
+                    "ThinArc::from_header_and_iter",
+                    true,
+                    false,
+                ),
                 6 => (
-                    Out::Thin(Arc::into_thin(Arc::from_header_and_vec(HeaderWithLength::new(header, n), items))),
+                    Out::Thin(Arc::into_thin(Arc::from_header_and_vec(
+                        HeaderWithLength::new(header, n),
+                        items,
+                    ))),
                     "Arc::from_header_and_vec(HeaderWithLength)+into_thin",
                     true,
                     true,
@@ -130,29 +215,76 @@ pub fn case<H: Pay, E: Pay>(ctor: usize, n: usize, regime: u8, capmode: usize, s
                     // header erasure: HeaderSlice<(),[T]> -> [T]
                     let f: Arc<HeaderSlice<(), [E]>> = Arc::from_header_and_vec((), items);
                     drop(header);
-                    (Out::Slice(f.into()), "from_header_and_vec((),v) -> Arc<[T]>", false, true)
+                    (
+                        Out::Slice(f.into()),
+                        "from_header_and_vec((),v) -> Arc<[T]>",
+                        false,
+                        true,
+                    )
                 }
                 8 => {
                     // and back: [T] -> HeaderSlice<(),[T]> -> [T]
                     let a: Arc<[E]> = Arc::from(items);
                     let f: Arc<HeaderSlice<(), [E]>> = a.into();
                     drop(header);
-                    (Out::Slice(f.into()), "Arc<[T]> -> HeaderSlice<(),[T]> -> Arc<[T]>", false, true)
+                    (
+                        Out::Slice(f.into()),
+                        "Arc<[T]> -> HeaderSlice<(),[T]> -> Arc<[T]>",
+                        false,
+                        true,
+                    )
                 }
-                9 => (Out::Slice(items.into_iter().collect()), "FromIterator(vec::IntoIter)", false, false),
-                10 => (Out::Slice(items.into_iter().filter(|_| true).collect()), "FromIterator(filter: lower bound 0)", false, false),
-                _ => (Out::Slice(items.into_iter().rev().rev().map(|x| x).collect()), "FromIterator(rev.rev.map: exact hint)", false, false),
+                9 => (
+                    Out::Slice(items.into_iter().collect()),
+                    "FromIterator(vec::IntoIter)",
+                    false,
+                    false,
+                ),
+                10 => (
+                    Out::Slice(items.into_iter().filter(|_| true).collect()),
+                    "FromIterator(filter: lower bound 0)",
+                    false,
+                    false,
+                ),
+                _ => (
+                    Out::Slice(items.into_iter().rev().rev().map(|x| x).collect()),
+                    "FromIterator(rev.rev.map: exact hint)",
+                    false,
+                    false,
+                ),
             }
         })
     });
     let (out, nm, uh, sv) = match r {
         Ok(x) => x,
         Err(msg) => {
-            ensure!(zst && msg.contains("ZST"), "C06", "ctor", "{}: constructor panicked: {}", what, msg);
+            ensure!(
+                zst && msg.contains("ZST"),
+                "C06",
+                "ctor",
+                "{}: constructor panicked: {}",
+                what,
+                msg
+            );
             // refused up front: every input must still have been destroyed exactly once
-            ensure!(tk::live() == live0 && tk::z_live() == z0, "C06", "ctor", "{}: refused constructor left {} tracked / {} zero-sized inputs alive", what, tk::live() - live0, tk::z_live() - z0);
+            ensure!(
+                tk::live() == live0 && tk::z_live() == z0,
+                "C06",
+                "ctor",
+                "{}: refused constructor left {} tracked / {} zero-sized inputs alive",
+                what,
+                tk::live() - live0,
+                tk::z_live() - z0
+            );
             let f = tk::take_findings();
-            ensure!(f.is_empty(), "C06", "ctor", "{}: refused constructor: {}", what, f.join("; "));
+            ensure!(
+                f.is_empty(),
+                "C06",
+                "ctor",
+                "{}: refused constructor: {}",
+                what,
+                f.join("; ")
+            );
             st.counts.bump("ctor.refused-zst");
             tk::reset_range(id0);
             return Ok(());
@@ -162,7 +294,15 @@ pub fn case<H: Pay, E: Pay>(ctor: usize, n: usize, regime: u8, capmode: usize, s
     uses_header = uh;
     src_is_vec = sv;
     // nothing cloned, nothing destroyed, nothing duplicated by the construction
-    ensure!(tk::clones() == clones0, "C06", "ctor", "{} ({}): {} elements were cloned instead of moved", what, name, tk::clones() - clones0);
+    ensure!(
+        tk::clones() == clones0,
+        "C06",
+        "ctor",
+        "{} ({}): {} elements were cloned instead of moved",
+        what,
+        name,
+        tk::clones() - clones0
+    );
     let expect_live = live0 + n_in_id - if uses_header || !H::HAS_ID { 0 } else { 1 };
     ensure!(
         tk::live() == expect_live,
@@ -178,7 +318,15 @@ pub fn case<H: Pay, E: Pay>(ctor: usize, n: usize, regime: u8, capmode: usize, s
     match &out {
         Out::Slice(a) => {
             check_slice(&what, &**a, &ids)?;
-            ensure!(Arc::count(a) == 1, "C06,C17", "ctor", "{} ({}): fresh Arc has count {}", what, name, Arc::count(a));
+            ensure!(
+                Arc::count(a) == 1,
+                "C06,C17",
+                "ctor",
+                "{} ({}): fresh Arc has count {}",
+                what,
+                name,
+                Arc::count(a)
+            );
         }
         Out::Uslice(u) => check_slice(&what, &**u, &ids)?,
         Out::Hs(a) => {
@@ -186,12 +334,34 @@ pub fn case<H: Pay, E: Pay>(ctor: usize, n: usize, regime: u8, capmode: usize, s
             if let Err(m) = a.header.check() {
                 return viol("C06", "ctor", format!("{}: header: {}", what, m));
             }
-            ensure!(!H::HAS_ID || a.header.id() == hid, "C06", "ctor", "{} ({}): header is not the one given", what, name);
+            ensure!(
+                !H::HAS_ID || a.header.id() == hid,
+                "C06",
+                "ctor",
+                "{} ({}): header is not the one given",
+                what,
+                name
+            );
         }
         Out::Thin(t) => {
             check_slice(&what, &t.slice, &ids)?;
-            ensure!(t.header.length == n, "C06,C10", "ctor", "{} ({}): recorded length {}", what, name, t.header.length);
-            ensure!(!H::HAS_ID || t.header.header.id() == hid, "C06", "ctor", "{} ({}): header is not the one given", what, name);
+            ensure!(
+                t.header.length == n,
+                "C06,C10",
+                "ctor",
+                "{} ({}): recorded length {}",
+                what,
+                name,
+                t.header.length
+            );
+            ensure!(
+                !H::HAS_ID || t.header.header.id() == hid,
+                "C06",
+                "ctor",
+                "{} ({}): header is not the one given",
+                what,
+                name
+            );
         }
     }
     if shadow::active() {
@@ -225,19 +395,56 @@ pub fn case<H: Pay, E: Pay>(ctor: usize, n: usize, regime: u8, capmode: usize, s
     // release the result: every input destroyed exactly once, nothing left
     shadow::tracked(|| drop(out));
     let f = tk::take_findings();
-    ensure!(f.is_empty(), "C06", "ctor", "{} ({}): on release: {}", what, name, f.join("; "));
-    ensure!(tk::live() == live0 && tk::z_live() == z0, "C06", "ctor", "{} ({}): {} tracked / {} zero-sized values alive after releasing the result", what, name, tk::live() - live0, tk::z_live() - z0);
+    ensure!(
+        f.is_empty(),
+        "C06",
+        "ctor",
+        "{} ({}): on release: {}",
+        what,
+        name,
+        f.join("; ")
+    );
+    ensure!(
+        tk::live() == live0 && tk::z_live() == z0,
+        "C06",
+        "ctor",
+        "{} ({}): {} tracked / {} zero-sized values alive after releasing the result",
+        what,
+        name,
+        tk::live() - live0,
+        tk::z_live() - z0
+    );
     if E::HAS_ID {
         for id in &ids {
-            ensure!(tk::state(*id) == tk::DEAD, "C06", "ctor", "{} ({}): input element id={} was never destroyed", what, name, id);
+            ensure!(
+                tk::state(*id) == tk::DEAD,
+                "C06",
+                "ctor",
+                "{} ({}): input element id={} was never destroyed",
+                what,
+                name,
+                id
+            );
         }
     }
     if shadow::active() {
         if let Some(x) = shadow::take_findings().first() {
-            return viol("C06,C05", "ctor", format!("{} ({}): allocator monitor: {:?}", what, name, x));
+            return viol(
+                "C06,C05",
+                "ctor",
+                format!("{} ({}): allocator monitor: {:?}", what, name, x),
+            );
         }
         let lb = shadow::live_blocks();
-        ensure!(lb.is_empty(), "C06", "ctor", "{} ({}): blocks left behind: {:x?}", what, name, &lb[..lb.len().min(3)]);
+        ensure!(
+            lb.is_empty(),
+            "C06",
+            "ctor",
+            "{} ({}): blocks left behind: {:x?}",
+            what,
+            name,
+            &lb[..lb.len().min(3)]
+        );
     }
     st.counts.bump(&format!("ctor.{}", name));
     st.counts.bump("ctor.constructions");
@@ -248,7 +455,15 @@ pub fn case<H: Pay, E: Pay>(ctor: usize, n: usize, regime: u8, capmode: usize, s
         9..=70 => "9-70",
         _ => "big",
     };
-    st.cases.insert(hash64(&format!("{}|{}|{}|{}|{}|{}", name, H::NAME, E::NAME, lenclass, regime, capmode)));
+    st.cases.insert(hash64(&format!(
+        "{}|{}|{}|{}|{}|{}",
+        name,
+        H::NAME,
+        E::NAME,
+        lenclass,
+        regime,
+        capmode
+    )));
     if st.sample.len() < 8 && n % 17 == 3 {
         st.sample.push(format!("{} via {}: contents, order, identity, clone count 0, destructors and allocator events checked", what, name));
     }
@@ -279,7 +494,16 @@ pub fn sized_case<P: Pay + Default>(ctor: usize, st: &mut CtStats) -> R {
             let b = Box::new(P::make(9));
             let id = b.id();
             let addr = &*b as *const P as usize;
-            (Arc::from(b), id, "From<Box<T>>", if std::mem::size_of::<P>() > 0 { addr } else { 0 })
+            (
+                Arc::from(b),
+                id,
+                "From<Box<T>>",
+                if std::mem::size_of::<P>() > 0 {
+                    addr
+                } else {
+                    0
+                },
+            )
         }
         3 => {
             let v = P::make(9);
@@ -292,25 +516,84 @@ pub fn sized_case<P: Pay + Default>(ctor: usize, st: &mut CtStats) -> R {
             (a, id, "Default", 0)
         }
     });
-    ensure!(tk::clones() == clones0, "C06", "ctor", "{} ({}): value cloned instead of moved", what, name);
+    ensure!(
+        tk::clones() == clones0,
+        "C06",
+        "ctor",
+        "{} ({}): value cloned instead of moved",
+        what,
+        name
+    );
     if let Err(m) = a.check() {
         return viol("C06", "ctor", format!("{} ({}): {}", what, name, m));
     }
-    ensure!(a.id() == id && (ctor == 4 || a.tag() == if P::HAS_ID { 9 } else { 0 }), "C06", "ctor", "{} ({}): contents differ from the input", what, name);
-    ensure!(Arc::count(&a) == 1, "C06", "ctor", "{} ({}): fresh Arc has count {}", what, name, Arc::count(&a));
+    ensure!(
+        a.id() == id && (ctor == 4 || a.tag() == if P::HAS_ID { 9 } else { 0 }),
+        "C06",
+        "ctor",
+        "{} ({}): contents differ from the input",
+        what,
+        name
+    );
+    ensure!(
+        Arc::count(&a) == 1,
+        "C06",
+        "ctor",
+        "{} ({}): fresh Arc has count {}",
+        what,
+        name,
+        Arc::count(&a)
+    );
     if shadow::active() {
         if boxed != 0 {
-            ensure!(shadow::live_layout(boxed).is_none(), "C06", "ctor", "{} ({}): the source Box's storage was not released", what, name);
+            ensure!(
+                shadow::live_layout(boxed).is_none(),
+                "C06",
+                "ctor",
+                "{} ({}): the source Box's storage was not released",
+                what,
+                name
+            );
         }
         let extra = if P::NAME == "TB" { 1 } else { 0 };
-        ensure!(shadow::live_count() == 1 + extra, "C06", "ctor", "{} ({}): {} live blocks after construction", what, name, shadow::live_count());
+        ensure!(
+            shadow::live_count() == 1 + extra,
+            "C06",
+            "ctor",
+            "{} ({}): {} live blocks after construction",
+            what,
+            name,
+            shadow::live_count()
+        );
     }
     shadow::tracked(|| drop(a));
     let f = tk::take_findings();
-    ensure!(f.is_empty(), "C06", "ctor", "{} ({}): on release: {}", what, name, f.join("; "));
-    ensure!(tk::live() == live0 && tk::z_live() == z0, "C06", "ctor", "{} ({}): value not destroyed exactly once", what, name);
+    ensure!(
+        f.is_empty(),
+        "C06",
+        "ctor",
+        "{} ({}): on release: {}",
+        what,
+        name,
+        f.join("; ")
+    );
+    ensure!(
+        tk::live() == live0 && tk::z_live() == z0,
+        "C06",
+        "ctor",
+        "{} ({}): value not destroyed exactly once",
+        what,
+        name
+    );
     if shadow::active() {
-        ensure!(shadow::live_count() == 0, "C06", "ctor", "{} ({}): blocks left behind", what, name);
+        ensure!(
+            shadow::live_count() == 0,
+            "C06",
+            "ctor",
+            "{} ({}): blocks left behind",
+            what,
+            name
+        );
     }
     st.counts.bump(&format!("ctor.{}", name));
     st.counts.bump("ctor.constructions");
@@ -323,23 +606,61 @@ pub fn sized_case<P: Pay + Default>(ctor: usize, st: &mut CtStats) -> R {
 pub fn copy_cases(n: usize, st: &mut CtStats) -> R {
     shadow::reset();
     let v: Vec<u32> = (0..n as u32).map(|k| k.wrapping_mul(2654435761)).collect();
-    let s: String = (0..n).map(|k| char::from_u32(0x61 + (k as u32 % 26)).unwrap()).collect();
+    let s: String = (0..n)
+        .map(|k| char::from_u32(0x61 + (k as u32 % 26)).unwrap())
+        .collect();
     let what = format!("copy/str len={}", n);
     let a: Arc<[u32]> = shadow::tracked(|| Arc::from(&v[..]));
-    ensure!(&*a == &v[..], "C06", "ctor", "{}: From<&[T]> contents differ", what);
+    ensure!(
+        &*a == &v[..],
+        "C06",
+        "ctor",
+        "{}: From<&[T]> contents differ",
+        what
+    );
     let b = shadow::tracked(|| Arc::from_header_and_slice(7u16, &v[..]));
-    ensure!(b.header == 7 && b.slice == v[..], "C06", "ctor", "{}: from_header_and_slice contents differ", what);
+    ensure!(
+        b.header == 7 && b.slice == v[..],
+        "C06",
+        "ctor",
+        "{}: from_header_and_slice contents differ",
+        what
+    );
     let t = shadow::tracked(|| ThinArc::from_header_and_slice(9u8, &v[..]));
-    ensure!(t.header.header == 9 && t.header.length == n && t.slice == v[..], "C06,C10", "ctor", "{}: ThinArc::from_header_and_slice contents differ", what);
+    ensure!(
+        t.header.header == 9 && t.header.length == n && t.slice == v[..],
+        "C06,C10",
+        "ctor",
+        "{}: ThinArc::from_header_and_slice contents differ",
+        what
+    );
     let c: Arc<str> = shadow::tracked(|| Arc::from(&s[..]));
-    ensure!(&*c == s.as_str(), "C06", "ctor", "{}: From<&str> contents differ", what);
+    ensure!(
+        &*c == s.as_str(),
+        "C06",
+        "ctor",
+        "{}: From<&str> contents differ",
+        what
+    );
     let sbuf = s.as_ptr() as usize;
     let s2 = shadow::tracked(|| s.clone());
     let s2buf = s2.as_ptr() as usize;
     let d: Arc<str> = shadow::tracked(|| Arc::from(s2));
-    ensure!(&*d == s.as_str(), "C06", "ctor", "{}: From<String> contents differ", what);
+    ensure!(
+        &*d == s.as_str(),
+        "C06",
+        "ctor",
+        "{}: From<String> contents differ",
+        what
+    );
     if shadow::active() && n > 0 {
-        ensure!(shadow::live_layout(s2buf).is_none(), "C06", "ctor", "{}: From<String> did not release the String's buffer", what);
+        ensure!(
+            shadow::live_layout(s2buf).is_none(),
+            "C06",
+            "ctor",
+            "{}: From<String> did not release the String's buffer",
+            what
+        );
     }
     let _ = sbuf;
     // owned inputs of plain data (no destructor): the source storage must still be released
@@ -347,21 +668,53 @@ pub fn copy_cases(n: usize, st: &mut CtStats) -> R {
     let bx_addr = &*bx as *const [u64; 5] as usize;
     let before = shadow::live_count();
     let fb: Arc<[u64; 5]> = shadow::tracked(|| Arc::from(bx));
-    ensure!(*fb == [n as u64, 2, 3, 4, 5], "C06", "ctor", "{}: From<Box<T>> contents differ", what);
+    ensure!(
+        *fb == [n as u64, 2, 3, 4, 5],
+        "C06",
+        "ctor",
+        "{}: From<Box<T>> contents differ",
+        what
+    );
     let vc = shadow::tracked(|| v.clone());
     let vc_addr = vc.as_ptr() as usize;
     let fv: Arc<[u32]> = shadow::tracked(|| Arc::from(vc));
-    ensure!(&*fv == &v[..], "C06", "ctor", "{}: From<Vec<T>> contents differ", what);
+    ensure!(
+        &*fv == &v[..],
+        "C06",
+        "ctor",
+        "{}: From<Vec<T>> contents differ",
+        what
+    );
     let vh = shadow::tracked(|| v.clone());
     let vh_addr = vh.as_ptr() as usize;
     let fh = shadow::tracked(|| Arc::from_header_and_vec(5u8, vh));
-    ensure!(fh.header == 5 && fh.slice == v[..], "C06", "ctor", "{}: from_header_and_vec contents differ", what);
+    ensure!(
+        fh.header == 5 && fh.slice == v[..],
+        "C06",
+        "ctor",
+        "{}: from_header_and_vec contents differ",
+        what
+    );
     if shadow::active() {
-        ensure!(shadow::live_layout(bx_addr).is_none(), "C06", "ctor", "{}: From<Box<T>> did not release the Box's storage (plain-data T)", what);
+        ensure!(
+            shadow::live_layout(bx_addr).is_none(),
+            "C06",
+            "ctor",
+            "{}: From<Box<T>> did not release the Box's storage (plain-data T)",
+            what
+        );
         if n > 0 {
             ensure!(shadow::live_layout(vc_addr).is_none() && shadow::live_layout(vh_addr).is_none(), "C06", "ctor", "{}: From<Vec<T>> / from_header_and_vec did not release the Vec's buffer (plain-data T)", what);
         }
-        ensure!(shadow::live_count() == before - 1 + 3, "C06", "ctor", "{}: {} live blocks after three plain-data constructions, expected {}", what, shadow::live_count(), before + 2);
+        ensure!(
+            shadow::live_count() == before - 1 + 3,
+            "C06",
+            "ctor",
+            "{}: {} live blocks after three plain-data constructions, expected {}",
+            what,
+            shadow::live_count(),
+            before + 2
+        );
     }
     shadow::tracked(|| {
         drop(fb);
@@ -369,7 +722,13 @@ pub fn copy_cases(n: usize, st: &mut CtStats) -> R {
         drop(fh);
     });
     let e = shadow::tracked(|| Arc::from_header_and_str(3u64, &s));
-    ensure!(e.header == 3 && &e.slice == s.as_str(), "C06", "ctor", "{}: from_header_and_str contents differ", what);
+    ensure!(
+        e.header == 3 && &e.slice == s.as_str(),
+        "C06",
+        "ctor",
+        "{}: from_header_and_str contents differ",
+        what
+    );
     shadow::tracked(|| {
         drop(a);
         drop(b);
@@ -380,9 +739,19 @@ pub fn copy_cases(n: usize, st: &mut CtStats) -> R {
     });
     if shadow::active() {
         if let Some(x) = shadow::take_findings().first() {
-            return viol("C06,C05", "ctor", format!("{}: allocator monitor: {:?}", what, x));
+            return viol(
+                "C06,C05",
+                "ctor",
+                format!("{}: allocator monitor: {:?}", what, x),
+            );
         }
-        ensure!(shadow::live_count() == 0, "C06", "ctor", "{}: blocks left behind", what);
+        ensure!(
+            shadow::live_count() == 0,
+            "C06",
+            "ctor",
+            "{}: blocks left behind",
+            what
+        );
     }
     st.counts.add("ctor.copy/str", 9);
     st.counts.add("ctor.constructions", 9);
